@@ -84,13 +84,14 @@ PROPS = {
     ),
     "C16": dict(
         rules=[R("tc", "rule_tc_flag"), R("tc", "rule_tc_pure"), R("tc", "rule_tc_null_first"),
-               R("placeholder", "rule_placeholder")],
+               R("placeholder", "rule_placeholder"), R("placeholder", "rule_match_target")],
         level="proof",
         clause="Second sentence as a closed non-interference argument: the enable_type_checks flag is read once and guards "
                "only the emission of the assert instructions with their span (R-TC-FLAG); the VM's handling of a passing "
                "assertion is effect-free (R-TC-PURE); `?` admits null before any type-name handling (R-TC-NULL-FIRST); "
                "jump offsets are relative and patched after emission (R-PLACEHOLDER), so removing the assert instructions "
-               "cannot change any other instruction's effect. Not decided: that a check fires exactly when the type name "
+               "cannot change any other instruction's effect. A failed type pattern of a match arm is routed by the alternative's "
+               "position like every other pattern (R-MATCH-TARGET). Not decided: that a check fires exactly when the type name "
                "mismatches.",
         technique="field-read census + control-dependence region analysis + call-graph effect closure (proof obligations)",
     ),
@@ -167,8 +168,11 @@ PROPS = {
                   "unguarded subtraction); unit taint (display column -> byte offset)",
     ),
     "C03": dict(
-        rules=[R("placeholder", "rule_placeholder"), R("placeholder", "rule_match_order")],
-        clause="The three jump lists of a match arm are patched where the arm's structure requires (R-MATCH-ORDER). "
+        rules=[R("placeholder", "rule_placeholder"), R("placeholder", "rule_match_order"),
+               R("placeholder", "rule_match_target")],
+        clause="The three jump lists of a match arm are patched where the arm's structure requires (R-MATCH-ORDER), and a "
+               "pattern's mismatch jump is filed in the list that matches the alternative's position: skip-the-arm only in "
+               "the last alternative, next-alternative only in the others (R-MATCH-TARGET). "
                "Every conditional jump emitted for a pattern, alternative, guard, type check or map-key test is filed in "
                "a placeholder list and patched on every path by the function that owns the list (R-PLACEHOLDER). An "
                "unpatched placeholder keeps offset 0, so a failed test falls into the arm. Not decided: which arm a "
@@ -222,12 +226,15 @@ PROPS = {
         technique="MIR dominance / must-pass-through and constant-argument analysis",
     ),
     "C18": dict(
-        rules=[R("vm", "rule_import"), R("vm", "rule_import_once"), R("vm", "rule_resolve_order")],
+        rules=[R("vm", "rule_import"), R("vm", "rule_import_once"), R("vm", "rule_resolve_order"),
+               R("compiler", "rule_force_export")],
         clause="run_import rolls back on every failing path (R-IMPORT) and orders lookup -> placeholder -> module run, "
                "with the in-progress edge reaching only an error exit (R-IMPORT-ONCE); `name.koto` is tested before "
-               "`name/main.koto` (R-RESOLVE-ORDER). Not decided: behaviour over "
+               "`name/main.koto` (R-RESOLVE-ORDER); with top-level exporting on, no export of an assigned id hinges on the "
+               "explicit `export` flag alone (R-FORCE-EXPORT). Not decided: behaviour over "
                "arbitrary module graphs, resolution order, export visibility.",
-        technique="MIR path and dominance rules on KotoVm::run_import",
+        technique="MIR path and dominance rules on KotoVm::run_import; reachability under a flag hypothesis (pruned CFG) "
+                  "with interprocedural flag evaluation over the compiler's export sites",
     ),
 }
 
